@@ -114,6 +114,7 @@ Proof.
   - unfold get_balance. rewrite get_obj_push_j. apply get_balance_get_or_new_any.
 Qed.
 
+(* placeholder *)
 (* ---- frames ------------------------------------------------------------------ *)
 
 Lemma run_code_good : forall runf cx c gas s, runner_good runf -> good (c_static cx = true) s gas (run_code P runf cx c gas s).
@@ -121,6 +122,12 @@ Proof.
   intros runf cx c gas s H. unfold run_code. destruct (code_acts P c).
   - destruct (N.eqb (code_len P c) 0); [Rsame | apply H].
   - apply H.
+Qed.
+
+Lemma run_target_good : forall runf cx to gas s, runner_good runf -> good (c_static cx = true) s gas (run_target G P runf cx to gas s).
+Proof.
+  intros runf cx to gas s H. unfold run_target. destruct (pre_gas G to) as [need|]; [|apply run_code_good; exact H].
+  destruct (charge need gas) as [g|] eqn:C; [apply charge_le in C|]; Rsame.
 Qed.
 
 Lemma finish_good : forall (pv : Prop) s gas r, good pv s gas r -> good pv s gas (finish (snapshot s) r).
@@ -180,14 +187,14 @@ Proof.
     + apply R_prim; [apply ext_transfer | | ].
       * intros NR W. split; [apply wf_transfer; assumption | apply total_transfer; [assumption | apply C1; assumption]].
       * intros _ [_ Hv]. rewrite (Hv eq_refl). apply veq_transfer_zero.
-    + eapply R_weaken; [|apply run_code_good; assumption]. cbn [c_static]. intros [[Hs|Hs] _]; [assumption | discriminate].
+    + eapply R_weaken; [|apply run_target_good; assumption]. cbn [c_static]. intros [[Hs|Hs] _]; [assumption | discriminate].
   - (* CallCode *)
     destruct (can_transfer (c_self cx) value s) eqn:C; cbn [negb]; [|Rsame].
-    apply finish_good. eapply R_weaken; [|apply run_code_good; assumption]. cbn [c_static]. intros [[Hs|Hs] _]; [assumption | discriminate].
+    apply finish_good. eapply R_weaken; [|apply run_target_good; assumption]. cbn [c_static]. intros [[Hs|Hs] _]; [assumption | discriminate].
   - (* DelegateCall *)
-    apply finish_good. eapply R_weaken; [|apply run_code_good; assumption]. cbn [c_static]. intros [[Hs|Hs] _]; [assumption | discriminate].
+    apply finish_good. eapply R_weaken; [|apply run_target_good; assumption]. cbn [c_static]. intros [[Hs|Hs] _]; [assumption | discriminate].
   - (* StaticCall *)
-    apply finish_good. eapply R_weaken; [|apply run_code_good; assumption]. cbn [c_static]. intros _. reflexivity.
+    apply finish_good. eapply R_weaken; [|apply run_target_good; assumption]. cbn [c_static]. intros _. reflexivity.
 Qed.
 
 Lemma call_frame_failed : forall runf k cx to gas value s r, runner_good runf ->
@@ -195,12 +202,12 @@ Lemma call_frame_failed : forall runf k cx to gas value s r, runner_good runf ->
 Proof.
   intros runf k cx to gas value s r H Hr Hst. subst r. unfold call_frame in *.
   destruct (N.ltb (p_depth G) (c_depth cx)); [apply jeq_refl|].
-  assert (forall cx' c s2, ext s s2 ->
-            r_status (finish (snapshot s) (run_code P runf cx' c gas s2)) = Failed \/
-            r_status (finish (snapshot s) (run_code P runf cx' c gas s2)) = Reverted ->
-            jeq (r_st (finish (snapshot s) (run_code P runf cx' c gas s2))) s) as K.
-  { intros cx' c s2 E Hs. rewrite finish_status in Hs. apply finish_restores; [|assumption].
-    eapply ext_trans; [exact E|]. apply (run_code_good runf cx' c gas s2 H). }
+  assert (forall cx' t s2, ext s s2 ->
+            r_status (finish (snapshot s) (run_target G P runf cx' t gas s2)) = Failed \/
+            r_status (finish (snapshot s) (run_target G P runf cx' t gas s2)) = Reverted ->
+            jeq (r_st (finish (snapshot s) (run_target G P runf cx' t gas s2))) s) as K.
+  { intros cx' t s2 E Hs. rewrite finish_status in Hs. apply finish_restores; [|assumption].
+    eapply ext_trans; [exact E|]. apply (run_target_good runf cx' t gas s2 H). }
   destruct k.
   - destruct (can_transfer (c_self cx) value s); cbn [negb] in *; [|apply jeq_refl].
     apply K; [|assumption]. eapply ext_trans; [|apply ext_transfer].
